@@ -190,7 +190,15 @@ func (c *ClientOptions) handleCallback() func(context.Context, *jmessage) []byte
 				rsp.E = &Error{Code: ErrorCode(err), Message: err.Error()}
 			}
 		}
-		bits, _ := rsp.toJSON()
+		bits, err := rsp.toJSON()
+		if err != nil {
+			// The reply cannot be encoded (for example an *Error whose data are
+			// not valid JSON). Report that failure to the caller instead.
+			rsp.E = &Error{Code: InternalError, Message: "encoding callback reply: " + err.Error()}
+			if bits, err = rsp.toJSON(); err != nil {
+				return nil
+			}
+		}
 		return bits
 	}
 }
